@@ -61,6 +61,27 @@ func c10Gen(seed uint64, tier string) any {
 		if r.Chance(1, 4) {
 			vm.Attrs.Store("nf", ds.NewNativeFunctionVal(&ds.NativeFunctionData{Name: "abs"}))
 		}
+		if r.Chance(1, 3) {
+			// a method taken from a container and kept in a variable (its name is whatever the library
+			// lists for that container): sessions do this, and snapshots then carry its serialised name
+			kind := Pick(r, []string{"[3,1,2]", "{'a':1}"})
+			m.Reset()
+			DoCmd(vm, Cmd{Kind: "run", Src: "dir(" + kind + ")"})
+			var names []string
+			Guard(func() {
+				if ad, ok := vm.Ret.ReadArray(); ok {
+					for _, e := range ad.List {
+						if s, ok := e.ReadString(); ok {
+							names = append(names, s)
+						}
+					}
+				}
+			})
+			if len(names) > 0 {
+				m.Reset()
+				DoCmd(vm, Cmd{Kind: "run", Src: "bmv = " + kind + "; bm = bmv." + names[r.Intn(len(names))] + "; 1"})
+			}
+		}
 		Guard(func() {
 			if b, err := vm.Attrs.ToJSON(); err == nil && len(b) < 4000 {
 				base = string(b)
